@@ -26,6 +26,7 @@ func runC01(c *Ctx) {
 		ruleColumnShape(c, p)
 		ruleElementWidth(c, p, "C01.width")
 		ruleEndian(c, p, "C01.endian")
+		ruleClones(c, p, "C01.clones")
 	}
 	p := c.Prog(core.CfgDefault)
 	if p == nil {
@@ -648,28 +649,53 @@ func ruleNullFlag(c *Ctx, p *core.Program) {
 		c.R.Unk(rule, "ColNullable", cfg, "", "Append / Row missing")
 		return
 	}
-	// Append: constant on the edge where v.Set is true
+	// Append: the mask byte handed to Nulls.Append when v.Set is true
 	setConst, haveSet := int64(0), false
-	setEdges := core.CondEdges(app, true, func(cond ssa.Value) (bool, bool) {
-		return true, strings.HasSuffix(core.FieldOrigin(cond, 0), ".Set")
-	})
-	for _, b := range app.Blocks {
-		for _, in := range b.Instrs {
-			ph, ok := in.(*ssa.Phi)
-			if !ok {
-				continue
-			}
-			for i, e := range ph.Edges {
-				k, okc := core.ConstInt(e)
-				if !okc {
-					continue
-				}
-				pred := b.Preds[i]
+	isSet := func(v ssa.Value) bool { return strings.HasSuffix(core.FieldOrigin(v, 0), ".Set") }
+	setEdges := core.CondEdges(app, true, func(cond ssa.Value) (bool, bool) { return true, isSet(cond) })
+	var resolve func(x ssa.Value, d int)
+	resolve = func(x ssa.Value, d int) {
+		if d > 3 {
+			return
+		}
+		switch v := x.(type) {
+		case *ssa.Phi:
+			for i, e := range v.Edges {
+				pred := v.Block().Preds[i]
 				if len(setEdges) > 0 && core.OnlyViaEdges(app, pred.Instrs[len(pred.Instrs)-1], setEdges) {
+					if k, okc := core.ConstInt(e); okc {
+						setConst, haveSet = k, true
+					}
+				}
+			}
+		case *ssa.Call:
+			// a helper mapping the flag to the mask byte: fold it for set = true
+			g := core.StaticFn(v)
+			if g == nil {
+				return
+			}
+			params := map[int]int64{}
+			for i, a := range v.Call.Args {
+				if isSet(a) {
+					params[i] = 1
+				}
+			}
+			if len(params) == 1 {
+				if k, ok := core.FoldFunc(g, nil, params); ok {
 					setConst, haveSet = k, true
 				}
 			}
+		case *ssa.Convert:
+			resolve(v.X, d+1)
 		}
+	}
+	for _, call := range core.Calls(app) {
+		f := core.CalleeFunc(call)
+		if f == nil || f.Name() != "Append" || !core.IsMethod(f, core.PkgProto, "ColUInt8", "Append") {
+			continue
+		}
+		args := call.Common().Args
+		resolve(args[len(args)-1], 0)
 	}
 	cmpConst := func(fn *ssa.Function) (int64, bool) {
 		for _, b := range fn.Blocks {
